@@ -7,9 +7,42 @@ from ..xlate import Interp, Obj, ListV, DictV, Raised, _RaisedExc
 from .common import same, show
 
 XL = 'pmutt.io.excel'
-NAN = None      # an empty cell
 BOOK = '/dir/book.xlsx'
 INT_CELLS = set()       # names of the symbolic cells that stand for Python ints (a column typed without decimals)
+
+
+class _NaN(Rat):
+    """an empty cell as pandas hands it over: the float NaN - a float for isinstance, not None, equal to no text and
+    to no None, a null for pandas.  What Python decides about NaN by arithmetic or by comparing numbers (NaN != NaN,
+    NaN < x ...) is not modelled by the interpreter's numbers: every such use is a refusal (exit 2), never a guess"""
+    __slots__ = ()
+
+    def __init__(s):
+        Rat.__init__(s, Rat.atom('NaN').n)
+
+    def _refuse(s, *a_, **k_):
+        raise Unsupported('arithmetic or numeric comparison with NaN (an empty cell of the pandas mock of rule C15)')
+    __add__ = __radd__ = __sub__ = __rsub__ = __mul__ = __rmul__ = __truediv__ = __rtruediv__ = __neg__ = _refuse
+    recip = powi = eq = split_linear = _refuse
+
+
+NAN = _NaN()    # an empty cell
+
+
+def is_nan(v):
+    return v is NAN or (isinstance(v, Rat) and 'NaN' in v.atoms())
+
+
+SYM_TEXTS = {}          # placeholder -> (width, class) of the text cells the rule leaves open
+
+
+def SYM(name, width=6):
+    """a text cell the rule leaves open (no surrounding blanks)"""
+    SYM_TEXTS[name] = (width, 'text')
+    return name
+
+
+SYM('@pad', 5)
 
 
 def a(name):
@@ -51,6 +84,70 @@ def _plain(what, meth, fn):
     return call
 
 
+def one_shot(items):
+    """an iterator object (Series.items() is a zip object, DataFrame.iterrows() a generator, iter(...)): what has been
+    taken from it is gone"""
+    r = ListV(items)
+    r.is_iterator = True
+    return r
+
+
+def pair(x, y):
+    r = ListV([x, y])
+    r.is_tuple = True
+    return r
+
+
+def array(items):
+    """a one-dimensional numpy array (Series.values, Index.values)"""
+    r = ListV(items)
+    r.is_array = True
+    return r
+
+
+def _position(idx, n_, what):
+    if isinstance(idx, Rat) and not is_nan(idx) and (idx.iszero() or idx.is_const()):
+        k = Fr(0) if idx.iszero() else idx.const_value()
+        if k.denominator == 1:
+            if -n_ <= k < n_:
+                return int(k)
+            raise _RaisedExc(Raised('IndexError', None))
+    raise Unsupported('%s[%r] is not modelled by the pandas mock of rule C15' % (what, idx))
+
+
+def index(labels):
+    """mock of a pandas Index (DataFrame.columns / .index, Series.index / .keys()): the labels in order.  It is not a
+    Python list: it has tolist() / to_list() / values, no append / sort / ...; what the mock lacks is a refusal"""
+    labels = list(labels)
+    ix = Obj('index', closed=True)
+    ix.isa.add('Index')
+    m = ix.opaque_methods = Members('Index')
+    for meth, fn in (('tolist', lambda: ListV(labels)), ('to_list', lambda: ListV(labels)),
+                     ('to_numpy', lambda: array(labels)), ('copy', lambda: index(labels)),
+                     ('__len__', lambda: C(len(labels))), ('__iter__', lambda: one_shot(labels))):
+        m[meth] = _plain('Index', meth, fn)
+
+    def contains(I, o, args, kwargs):
+        x = args[0]
+        if isinstance(x, str) and x not in I.sym_strings and all(isinstance(l_, str) for l_ in labels):
+            return x in labels
+        if isinstance(x, Rat) and not is_nan(x) and (x.iszero() or x.is_const()) and \
+                all(isinstance(l_, Rat) and (l_.iszero() or l_.is_const()) for l_ in labels):
+            return any(x.eq(l_) for l_ in labels)
+        raise Unsupported('%r in Index is not modelled by the pandas mock of rule C15' % (x,))
+    m['__getitem__'] = lambda I, o, args, kwargs: labels[_position(args[0], len(labels), 'Index')]
+    m['__contains__'] = contains
+    ix.attrs.update({'values': array(labels), 'size': C(len(labels)), 'empty': not labels,
+                     'shape': shape(len(labels))})
+    return ix
+
+
+def shape(*dims):
+    r = ListV([C(d_) for d_ in dims])
+    r.is_tuple = True
+    return r
+
+
 def series(label, cells):
     """mock of one row (a pandas Series): cells = [(header, cell), ...] in column order"""
     row = Obj('row%s' % label, closed=True)
@@ -60,24 +157,30 @@ def series(label, cells):
     vals = [v for _, v in cells]
 
     def flags(null):
-        return series(label, [(h, (v is NAN) == null) for h, v in cells])
-    for meth, fn in (('items', lambda: ListV([ListV([h, v]) for h, v in cells])),
-                     ('dropna', lambda: series(label, [(h, v) for h, v in cells if v is not NAN])),
+        return series(label, [(h, is_nan(v) == null) for h, v in cells])
+    for meth, fn in (('items', lambda: one_shot([pair(h, v) for h, v in cells])),
+                     ('dropna', lambda: series(label, [(h, v) for h, v in cells if not is_nan(v)])),
                      ('isna', lambda: flags(True)), ('isnull', lambda: flags(True)),
                      ('notna', lambda: flags(False)), ('notnull', lambda: flags(False)),
-                     ('keys', lambda: ListV(heads)), ('tolist', lambda: ListV(vals)), ('to_list', lambda: ListV(vals)),
+                     ('keys', lambda: index(heads)), ('tolist', lambda: ListV(vals)), ('to_list', lambda: ListV(vals)),
+                     ('to_numpy', lambda: array(vals)),
                      ('to_dict', lambda: DictV(dict(cells))), ('copy', lambda: series(label, cells)),
-                     ('count', lambda: C(len([v for v in vals if v is not NAN]))),
-                     ('__len__', lambda: C(len(cells))), ('__iter__', lambda: ListV(vals))):
+                     ('count', lambda: C(len([v for v in vals if not is_nan(v)]))),
+                     ('__len__', lambda: C(len(cells))), ('__iter__', lambda: one_shot(vals))):
         m[meth] = _plain('Series', meth, fn)
-    row.attrs.update({'index': ListV(heads), 'values': ListV(vals), 'size': C(len(cells)), 'empty': not cells})
+    if all(isinstance(v, bool) for v in vals):
+        # a row of flags (isna() / notna()): the reductions a null test over a whole row uses
+        m['all'] = _plain('Series', 'all', lambda: all(vals))
+        m['any'] = _plain('Series', 'any', lambda: any(vals))
+        m['sum'] = _plain('Series', 'sum', lambda: C(len([v for v in vals if v])))
+    row.attrs.update({'index': index(heads), 'values': array(vals), 'size': C(len(cells)), 'empty': not cells,
+                      'shape': shape(len(cells))})
     row.cells = cells
 
-    # row[label] / row[boolean mask of the same row] / label in row (used once the interpreter consults the protocol
-    # members of an opaque object, see REQ2_C15; until then it answers a subscript of any opaque object itself)
+    # row[label] / row[boolean mask of the same row] / label in row
     def getitem(I, o, args, kwargs):
         idx = args[0]
-        if isinstance(idx, str):
+        if isinstance(idx, str) and idx not in I.sym_strings:
             hit = [v for h, v in cells if h == idx]
             if len(hit) == 1:
                 return hit[0]
@@ -89,11 +192,19 @@ def series(label, cells):
         raise Unsupported('Series[%r] is not modelled by the pandas mock of rule C15' % (idx,))
 
     def contains(I, o, args, kwargs):
-        if isinstance(args[0], str):
+        if isinstance(args[0], str) and args[0] not in I.sym_strings:
             return args[0] in heads
         raise Unsupported('%r in Series is not modelled by the pandas mock of rule C15' % (args[0],))
+
+    def get(I, o, args, kwargs):
+        if len(args) not in (1, 2) or kwargs:
+            raise Unsupported('Series.get(...) with these arguments is not modelled by the pandas mock of rule C15')
+        if contains(I, o, args[:1], {}):
+            return getitem(I, o, args[:1], {})
+        return args[1] if len(args) == 2 else None
     m['__getitem__'] = getitem
     m['__contains__'] = contains
+    m['get'] = get
     return row
 
 
@@ -110,27 +221,72 @@ def sheet(rows, headers=None):
         if orient != 'records' or len(args) + len(kwargs) != 1:
             raise Unsupported('DataFrame.to_dict is modelled for orient="records" only (pandas mock of rule C15)')
         return ListV([DictV(dict(cells)) for cells in rows])
-    m['iterrows'] = _plain('DataFrame', 'iterrows', lambda: ListV([ListV([C(ri), series(ri, cells)])
-                                                                   for ri, cells in enumerate(rows)]))
+    m['iterrows'] = _plain('DataFrame', 'iterrows', lambda: one_shot([pair(C(ri), series(ri, cells))
+                                                                      for ri, cells in enumerate(rows)]))
     m['to_dict'] = to_dict
     m['__len__'] = _plain('DataFrame', '__len__', lambda: C(len(rows)))
-    m['__iter__'] = _plain('DataFrame', '__iter__', lambda: ListV(headers))
-    df.attrs.update({'empty': not rows or not headers, 'columns': ListV(headers),
-                     'index': ListV([C(i) for i in range(len(rows))]),
-                     'shape': ListV([C(len(rows)), C(len(headers))]), 'size': C(len(rows) * len(headers))})
+    m['__iter__'] = _plain('DataFrame', '__iter__', lambda: one_shot(headers))
+    m['keys'] = _plain('DataFrame', 'keys', lambda: index(headers))
+    m['to_numpy'] = _plain('DataFrame', 'to_numpy', lambda: array([array([v for _, v in cells]) for cells in rows]))
+    df.attrs.update({'empty': not rows or not headers, 'columns': index(headers),
+                     'index': index([C(i) for i in range(len(rows))]),
+                     'shape': shape(len(rows), len(headers)), 'size': C(len(rows) * len(headers)),
+                     'values': array([array([v for _, v in cells]) for cells in rows])})
     return df
 
 
 def _null(I_, fr, args, kwargs, n):
+    if len(args) == 1 and not kwargs and isinstance(args[0], Obj) and 'Series' in args[0].isa and \
+            'isnull' in args[0].opaque_methods:
+        return args[0].opaque_methods['isnull'](I_, args[0], [], {})       # element-wise over a row
     if len(args) != 1 or kwargs or isinstance(args[0], (Obj, ListV, DictV)):
         raise Unsupported('pandas null test of something that is not one cell (pandas mock of rule C15)', n)
-    return args[0] is NAN
+    return is_nan(args[0])
+
+
+def _notnull(I_, fr, args, kwargs, n):
+    if len(args) == 1 and not kwargs and isinstance(args[0], Obj) and 'Series' in args[0].isa and \
+            'notnull' in args[0].opaque_methods:
+        return args[0].opaque_methods['notnull'](I_, args[0], [], {})
+    return not _null(I_, fr, args, kwargs, n)
+
+
+def _ospath(name):
+    """the pure text functions of os.path (posix spelling) on concrete paths"""
+    import posixpath
+
+    def fn(I_, fr, args, kwargs, n):
+        if kwargs or not args or not all(isinstance(x, str) and x not in I_.sym_strings for x in args):
+            raise Unsupported('os.path.%s of %r' % (name, args), n)
+        r = getattr(posixpath, name)(*args)
+        if isinstance(r, tuple):
+            t_ = ListV(list(r))
+            t_.is_tuple = True
+            return t_
+        return r
+    return fn
+
+
+def _isnan(kind):
+    """numpy.isnan / math.isnan of one cell: true for NaN, false for any other number; a text is a TypeError"""
+    def fn(I_, fr, args, kwargs, n):
+        if len(args) != 1 or kwargs or isinstance(args[0], (Obj, ListV, DictV)):
+            raise Unsupported('%s.isnan of something that is not one cell (pandas mock of rule C15)' % kind, n)
+        if isinstance(args[0], Rat):
+            return is_nan(args[0])
+        if isinstance(args[0], bool):
+            return False
+        if isinstance(args[0], str) and args[0] not in I_.sym_strings or args[0] is None:
+            raise _RaisedExc(Raised('TypeError', n))
+        raise Unsupported('%s.isnan(%r)' % (kind, args[0]), n)
+    return fn
 
 
 def new_interp(repo, book, seen=None):
     """an interpreter whose pandas.read_excel answers with book(what pandas was given) -> rows"""
     I = Interp(repo)
     I.int_syms.update(INT_CELLS)
+    I.sym_strings.update(SYM_TEXTS)
 
     def reader(I_, fr, args, kwargs, n):
         kw = dict(kwargs)
@@ -145,8 +301,11 @@ def new_interp(repo, book, seen=None):
     for nm in ('isnull', 'isna'):
         I.native['pandas.' + nm] = _null
     for nm in ('notnull', 'notna'):
-        I.native['pandas.' + nm] = lambda I_, fr, args, kwargs, n: not _null(I_, fr, args, kwargs, n)
-    I.native['os.path.dirname'] = lambda I_, fr, a_, k_, n: '/dir'
+        I.native['pandas.' + nm] = _notnull
+    I.native['numpy.isnan'] = _isnan('numpy')
+    I.native['math.isnan'] = _isnan('math')
+    for nm in ('dirname', 'basename', 'split', 'splitext', 'join', 'normpath'):
+        I.native['os.path.' + nm] = _ospath(nm)
     return I
 
 
@@ -170,6 +329,8 @@ PANDAS_DEFAULTS = {'sheet_name': C(0), 'header': C(0), 'names': None, 'index_col
 
 
 def val_same(a, b):
+    if is_nan(a) or is_nan(b):
+        return False            # an empty cell is never part of a record
     if isinstance(a, Rat) and isinstance(b, Rat):
         return a.eq(b)
     if isinstance(a, ListV) and isinstance(b, (ListV, list)):
@@ -208,7 +369,10 @@ def check(run, repo):
     run.explanation = (
         'read_excel and every special-column setter are interpreted abstractly on a mock of the DataFrame pandas '
         'returns: headers are the documented header strings (with surrounding blanks, pandas-style duplicate '
-        'suffixes), cells are symbolic values, model names or empty (NaN). For each sheet the list of records is '
+        'suffixes), cells are symbolic values, model names or empty - the float NaN, as pandas delivers an empty '
+        'cell: not None, a float for isinstance, null for pandas; what Python decides about NaN by numeric comparison '
+        'is refused. Series.items() / DataFrame.iterrows() are one-shot iterators of tuples, columns / index are '
+        'Index stand-ins (not lists). For each sheet the list of records is '
         'compared with the documented mapping: one record per row in row order, ordinary columns under their trimmed '
         'header, element.X / formula -> composition dictionary, repeated vib_wavenumber / rot_temperature -> ordered '
         'lists, list.name(.i) and dict.name.key, nasa.a_low.i / a_high.i -> 7-slot arrays, statmech_model presets '
@@ -216,28 +380,36 @@ def check(run, repo):
         'the row set the key), every documented per-mode model name resolved in the module of its mode with the '
         'EmptyMode fallback; empty cells never appear and nothing leaks from one row into another (rows with disjoint '
         'column subsets, rows that share a name or every cell, two rows using the same preset). Numeric cells are '
-        'floats or Python ints (a column typed without decimals) or zero, text cells include placeholders like "-"; '
+        'floats or Python ints (a column typed without decimals) or zero, text cells include placeholders like "-", '
+        'lower / mixed case texts and texts left open (symbolic); two cells of a row may hold the same value '
+        '(degenerate wavenumbers, the same site twice); every pattern of empty cells of a five-column table (32 rows, '
+        'in two column orders) and a 60-row table give one record per row; '
         'numbered columns run up to the two-digit pandas suffixes (30 vib_wavenumber, 12 rot_temperature and list '
         'columns), list / dict names may end in a digit; a model cell wins over the preset on either side of '
         'statmech_model for every mode; one interpreter reads nine worksheets one after the other (same workbook, '
         'other sheet / rows to skip / header row, another workbook): every call hands its arguments to pandas and '
         'returns the records of the table pandas answered with.')
     run.assumptions = ['pandas.read_excel is mocked: the DataFrame offers iterrows(), to_dict("records"), len, empty, '
-                       'columns, shape, index; a row offers items(), dropna(), isna()/notna(), keys(), index, values, '
-                       'tolist(), to_dict(), count(), len - (header, cell) pairs in column order; any other member of '
-                       'the mocks is a refusal (exit 2); pandas.isnull/isna (notnull/notna) are true (false) exactly '
-                       'for empty cells',
+                       'columns, keys(), shape, index, values / to_numpy(); a row offers items(), dropna(), '
+                       'isna()/notna(), keys(), get(), index, values, tolist(), to_numpy(), to_dict(), count(), len, '
+                       'row[label], label in row - (header, cell) pairs in column order; columns / index / keys() are '
+                       'Index stand-ins with tolist() / to_list() / to_numpy() / values / len / [i] / in; any other '
+                       'member of the mocks is a refusal (exit 2); pandas.isnull/isna (notnull/notna) of a cell or of a '
+                       'row, numpy.isnan / math.isnan of a cell are true (false) exactly for empty cells',
                        'keywords that the caller did not give may reach pandas.read_excel with the default pandas '
                        'documents for them (pandas 3.0 signature)']
     run.undecided = ['pandas behaviour itself (duplicate-header mangling, NaN detection, dtype guessing)',
                      'atoms / vib_outcar columns (ASE and VASP file readers)']
     m = repo.module(XL)
+    # the only entry point is read_excel; the documented setters are reached through it (they need not be plain defs:
+    # a setter made by a factory or bound to another function is the same public name)
+    if 'read_excel' not in m.functions:
+        raise AnchorError('%s.read_excel not found' % XL)
     for f_ in ('read_excel', 'set_element', 'set_formula', 'set_statmech_model', 'set_trans_model', 'set_vib_model',
                'set_rot_model', 'set_elec_model', 'set_nucl_model', 'set_vib_wavenumbers', 'set_rot_temperatures',
                'set_nasa_a_low', 'set_nasa_a_high', 'set_list_value', 'set_dict_value'):
-        if f_ not in m.functions:
-            raise AnchorError('%s.%s not found' % (XL, f_))
-        run.fn('%s.%s' % (XL, f_))
+        if f_ in m.functions:
+            run.fn('%s.%s' % (XL, f_))
     sm = repo.module('pmutt.statmech')
     SM = sm.classes.get('StatMech')
     EM = sm.classes.get('EmptyMode')
@@ -453,6 +625,122 @@ def check(run, repo):
                       "text cells: a species named '-', next to empty cells")
     else:
         run.fail('REF.rows', 'excel.read_excel', 'sheet 1f', 'unexpected result %s' % show(out, 120), m, fn)
+    # --- sheet 1g: cells are arbitrary, so two cells of one row may hold the SAME value (degenerate modes have equal
+    #     wavenumbers, a symmetric top equal rotational temperatures, a list the same site twice): every filled cell
+    #     is in the record, equal or not, first, last or adjacent ---------------------------------------------------------
+    rows = [
+        [('name', 'CO2'), ('vib_wavenumber', a('g1')), ('vib_wavenumber.1', a('g2')), ('vib_wavenumber.2', a('g3')),
+         ('vib_wavenumber.3', a('g3')), ('rot_temperature', ai('gr')), ('rot_temperature.1', ai('gr')),
+         ('list.sites', 'fcc'), ('list.sites.1', ' fcc '), ('list.cov', ai('gc')), ('list.cov.1', ai('gc')),
+         ('dict.d.x', a('g1')), ('dict.d.y', a('g1')), ('element.H', ai('gn')), ('element.O', ai('gn')),
+         ('potentialenergy', a('g1')), ('nasa.a_low.0', a('gz')), ('nasa.a_low.1', a('gz')), ('phase', 'fcc'),
+         ('notes', 'fcc')],
+        [('name', 'CH4'), ('vib_wavenumber', a('h1')), ('vib_wavenumber.1', C(1534)), ('vib_wavenumber.2', C(1534)),
+         ('vib_wavenumber.3', a('h1')), ('rot_temperature', C(Fr(151, 20))), ('rot_temperature.1', C(Fr(151, 20))),
+         ('list.sites', 'top'), ('list.sites.1', 'top'), ('list.cov', C(0)), ('list.cov.1', C(0)),
+         ('dict.d.x', 'top'), ('dict.d.y', 'top'), ('element.H', C(4)), ('element.O', NAN),
+         ('potentialenergy', NAN), ('nasa.a_low.0', NAN), ('nasa.a_low.1', NAN), ('phase', 'top'), ('notes', NAN)],
+    ]
+    I, out, m, fn = run_reader(repo, rows)
+    if isinstance(out, ListV) and len(out) == 2:
+        expect_record(run, m, fn, I, out.items[0],
+                      {'name': 'CO2', 'vib_wavenumbers': [a('g1'), a('g2'), a('g3'), a('g3')],
+                       'rot_temperatures': [a('gr'), a('gr')], 'sites': ['fcc', 'fcc'], 'cov': [a('gc'), a('gc')],
+                       'd': {'x': a('g1'), 'y': a('g1')}, 'elements': {'H': a('gn'), 'O': a('gn')},
+                       'potentialenergy': a('g1'), 'a_low': arr7(i0=a('gz'), i1=a('gz')), 'phase': 'fcc',
+                       'notes': 'fcc'},
+                      'equal cells in one row (degenerate wavenumbers, same site twice): every cell is kept')
+        expect_record(run, m, fn, I, out.items[1],
+                      {'name': 'CH4', 'vib_wavenumbers': [a('h1'), C(1534), C(1534), a('h1')],
+                       'rot_temperatures': [C(Fr(151, 20)), C(Fr(151, 20))], 'sites': ['top', 'top'],
+                       'cov': [C(0), C(0)], 'd': {'x': 'top', 'y': 'top'}, 'elements': {'H': C(4)}, 'phase': 'top'},
+                      'equal cells in one row: equal numbers, first and last cell equal')
+    else:
+        run.fail('REF.rows', 'excel.read_excel', 'sheet 1g: equal cells in one row', 'unexpected result %s' % show(out, 120), m, fn)
+    # --- sheet 1h: any pattern of empty cells: five columns (the first one is the plain header `name`), one row per
+    #     pattern of empty cells - 32 rows, from all filled to all empty: one record per row, in row order, with exactly
+    #     the filled cells (a row without a name, or with nothing but a name, is a row like any other) ----------------
+    cols5 = ('name', 'phase', 'potentialenergy', 'vib_wavenumber', 'list.notes')
+    rows, wants = [], []
+    for pat in range(32):
+        filled = [not (pat >> k_) & 1 for k_ in range(5)]
+        cellv = {'name': 'S%d' % pat, 'phase': 'G' if pat % 2 else 'S', 'potentialenergy': a('p%d_E' % pat),
+                 'vib_wavenumber': ai('p%d_w' % pat), 'list.notes': 'note %d' % pat}
+        rows.append([(h, cellv[h] if f_ else NAN) for h, f_ in zip(cols5, filled)])
+        want = {}
+        for h, f_ in zip(cols5, filled):
+            if f_:
+                if h == 'vib_wavenumber':
+                    want['vib_wavenumbers'] = [cellv[h]]
+                elif h == 'list.notes':
+                    want['notes'] = [cellv[h]]
+                else:
+                    want[h] = cellv[h]
+        wants.append(want)
+    # the same table with the columns in another order (the first column is not `name`) and the rows reversed
+    order2 = (3, 1, 4, 0, 2)
+    for label, rows_, wants_ in (('columns name, phase, potentialenergy, vib_wavenumber, list.notes', rows, wants),
+                                 ('columns vib_wavenumber, phase, list.notes, name, potentialenergy; rows reversed',
+                                  [[r_[k_] for k_ in order2] for r_ in reversed(rows)], list(reversed(wants)))):
+        I, out, m, fn = run_reader(repo, rows_)
+        ok = isinstance(out, ListV) and len(out) == 32
+        run.check(ok, 'REF.rows', 'excel.read_excel', 'every pattern of empty cells: ' + label,
+                  '32 data rows (every pattern of empty cells in five columns) must give 32 records in row order, got '
+                  '%s' % show(out, 160), m, fn)
+        if ok:
+            for ri, (rec, want) in enumerate(zip(out.items, wants_)):
+                expect_record(run, m, fn, I, rec, want,
+                              'every pattern of empty cells (%s): row %d, filled: %s'
+                              % (label.split(';')[0], ri + 1, ', '.join(sorted(want)) or 'nothing'))
+    # --- sheet 1j: the longest table of the property (60 data rows), every third cell of a column empty, each column
+    #     with its own phase: 60 records in row order ---------------------------------------------------------------------
+    rows, wants = [], []
+    for ri in range(60):
+        cellv = (('name', 'N%02d' % ri, ri % 3 == 2), ('potentialenergy', a('L%d_E' % ri), ri % 3 == 0),
+                 ('vib_wavenumber', ai('L%d_w' % ri), ri % 3 == 1), ('vib_wavenumber.1', a('L%d_v' % ri), ri % 4 == 1))
+        rows.append([(h, NAN if hole else v) for h, v, hole in cellv])
+        want = {h: v for h, v, hole in cellv[:2] if not hole}
+        vibs = [v for h, v, hole in cellv[2:] if not hole]
+        if vibs:
+            want['vib_wavenumbers'] = vibs
+        wants.append(want)
+    I, out, m, fn = run_reader(repo, rows)
+    ok = isinstance(out, ListV) and len(out) == 60
+    run.check(ok, 'REF.rows', 'excel.read_excel', '60 data rows',
+              '60 data rows must give 60 records in row order, got %s' % show(out, 160), m, fn)
+    if ok:
+        for ri, (rec, want) in enumerate(zip(out.items, wants)):
+            expect_record(run, m, fn, I, rec, want, '60 data rows: row %d' % (ri + 1))
+    # --- sheet 1i: ordinary columns are arbitrary headers with arbitrary text cells: lower / mixed case, brackets,
+    #     inner blanks, digits; a text the rule leaves open (symbolic), bare and with surrounding blanks; headers that
+    #     differ in case only.  Everything passes through as it is (trimmed), whatever the column is called ----------
+    from ..absstr import SegStr
+    rows = [
+        [('name', 'ch3oh(s)'), ('phase', 'g'), ('Phase', ' Gas '), ('notes', 'Mixed Case,  two  inner blanks'),
+         ('comments', 'fcc(111)'), ('spin', ai('sp')), ('smiles', '[CH3][OH]'), ('symmetrynumber', ai('sn')),
+         ('free text', SYM('@free')), ('free text 2', SegStr.lit('  ') + SegStr.field('@pad', 5, 'text') + ' '),
+         ('list.Sites', 'Top'), ('list.Sites.1', SYM('@site')), ('dict.Misc.Alpha', 'Bridge'),
+         ('dict.Misc.beta', SYM('@dv')), ('element.Pt', ai('nPt1'))],
+        [('name', 'CH3OH(S)'), ('phase', 'fcc(111)'), ('Phase', NAN), ('notes', 'lower case'),
+         ('comments', NAN), ('spin', NAN), ('smiles', 'co'), ('symmetrynumber', NAN),
+         ('free text', NAN), ('free text 2', SYM('@free')), ('list.Sites', NAN), ('list.Sites.1', 'hollow'),
+         ('dict.Misc.Alpha', NAN), ('dict.Misc.beta', 'x y'), ('element.Pt', NAN)],
+    ]
+    I, out, m, fn = run_reader(repo, rows)
+    if isinstance(out, ListV) and len(out) == 2:
+        expect_record(run, m, fn, I, out.items[0],
+                      {'name': 'ch3oh(s)', 'phase': 'g', 'Phase': 'Gas', 'notes': 'Mixed Case,  two  inner blanks',
+                       'comments': 'fcc(111)', 'spin': a('sp'), 'smiles': '[CH3][OH]', 'symmetrynumber': a('sn'),
+                       'free text': '@free', 'free text 2': '@pad', 'Sites': ['Top', '@site'],
+                       'Misc': {'Alpha': 'Bridge', 'beta': '@dv'}, 'elements': {'Pt': a('nPt1')}},
+                      'ordinary, list and dict columns with text cells of any shape (lower / mixed case, brackets, '
+                      'a text left open)')
+        expect_record(run, m, fn, I, out.items[1],
+                      {'name': 'CH3OH(S)', 'phase': 'fcc(111)', 'notes': 'lower case', 'smiles': 'co',
+                       'free text 2': '@free', 'Sites': ['hollow'], 'Misc': {'beta': 'x y'}},
+                      'ordinary, list and dict columns with text cells of any shape, second row')
+    else:
+        run.fail('REF.rows', 'excel.read_excel', 'sheet 1i: text cells of any shape', 'unexpected result %s' % show(out, 120), m, fn)
     # --- sheet 1e: vib_wavenumber repeated up to 30 times (pandas suffixes .1 ... .29), rot_temperature 12 times,
     #     interleaved, some headers padded, integer and float cells, holes at the ends and across the one/two-digit
     #     suffix boundary; the thorough tier runs every number of columns from 1 to 30 --------------------------------
@@ -601,7 +889,7 @@ def check(run, repo):
                           'set_statmech_model')
         else:
             run.fail('REF.record', 'excel.set_statmech_model', 'statmech_model=%s' % pname,
-                     'unexpected result %s' % show(out, 120), m, m.functions['set_statmech_model'])
+                     'unexpected result %s' % show(out, 120), m, m.functions.get('set_statmech_model') or fn)
         # the table itself: a documented preset sets exactly the documented attributes to the documented classes;
         # a preset the documentation does not list must at least name classes of the module of their mode
         if doc is not None:
@@ -623,7 +911,7 @@ def check(run, repo):
     r = run_reader(repo, [[('statmech_model', 'no such preset')]])
     run.check(isinstance(r[1], Raised) and r[1].exc == 'ValueError', 'PATH.unknown-preset', 'excel.set_statmech_model',
               'unknown preset', 'an unknown preset must raise ValueError (got %s)' % show(r[1]), m,
-              m.functions['set_statmech_model'])
+              m.functions.get('set_statmech_model') or fn)
     # every model class the API documentation lists per mode (docs/source/api/statmech/<mode>/), not a sample
     modes = (('trans', 'FreeTrans', 'pmutt.statmech.trans'), ('vib', 'HarmonicVib', 'pmutt.statmech.vib'),
              ('vib', 'QRRHOVib', 'pmutt.statmech.vib'), ('vib', 'EinsteinVib', 'pmutt.statmech.vib'),
@@ -643,11 +931,11 @@ def check(run, repo):
             else:
                 run.fail('REF.record', 'excel.' + setter, label if cell == cname else label,
                          'a documented %s model name is not resolved in the module of its mode: %s'
-                         % (mode, show(out, 100)), m, m.functions[setter])
+                         % (mode, show(out, 100)), m, m.functions.get(setter) or fn)
         I, out, m, fn = run_reader(repo, [[('%s_model' % mode, 'NoSuchModel')]])
         run.check(isinstance(out, Raised) and out.exc == 'ValueError', 'PATH.unknown-model', 'excel.set_%s_model' % mode,
                   'unknown name', 'an unknown %s model name must raise ValueError (got %s)' % (mode, show(out, 60)), m,
-                  m.functions['set_%s_model' % mode])
+                  m.functions.get('set_%s_model' % mode) or fn)
     # the row's own model cell wins over the preset, whatever the column order: for every mode a documented name that
     # differs from what the preset sets, and the EmptyMode fallback, right and left of statmech_model
     def cls_of(modname, cname):
@@ -680,7 +968,7 @@ def check(run, repo):
                 expect_record(run, m, fn, I, out.items[0], want, label, setter)
             else:
                 run.fail('REF.record', 'excel.' + setter, label, 'unexpected result %s' % show(out, 120), m,
-                         m.functions[setter])
+                         m.functions.get(setter) or fn)
     # every mode of one row given explicitly, statmech_model in the middle; a second row with the bare preset
     if 'idealgas' in contribs and 'idealgas' in doc_presets:
         rows = [[('vib_model', 'EinsteinVib'), ('trans_model', 'EmptyMode'), ('statmech_model', 'idealgas'),
@@ -698,7 +986,7 @@ def check(run, repo):
                           'bare preset in the row after a row with five model cells', 'set_statmech_model')
         else:
             run.fail('REF.record', 'excel.set_statmech_model', 'all five model cells around statmech_model=idealgas',
-                     'unexpected result %s' % show(out, 120), m, m.functions['set_statmech_model'])
+                     'unexpected result %s' % show(out, 120), m, m.functions.get('set_statmech_model') or fn)
 
 X_ = 'pmutt/io/excel.py'
 MUTANTS = [
@@ -762,6 +1050,30 @@ MUTANTS = [
      'edits': [(X_, "            if pd.isnull(cell_data):\n", "            if pd.isnull(cell_data) or cell_data in ('', '-', 'n/a'):\n")]},
     {'name': 'sheet_name swallowed by an explicit parameter', 'expect': ('FWD.pandas', 'read_excel'),
      'edits': [(X_, "               include_imaginary=False,\n               **kwargs):", "               include_imaginary=False,\n               sheet_name=0,\n               **kwargs):")]},
+    # white-box review round 3
+    {'name': 'empty cells recognised with `is None` (pandas hands an empty cell over as NaN)',
+     'expect': ('REF.record', 'read_excel'),
+     'edits': [(X_, "            if pd.isnull(cell_data):\n", "            if cell_data is None:\n")]},
+    {'name': 'the filled cells of a row are a filter object that is looked at twice', 'expect': ('REF.record', 'read_excel'),
+     'edits': [(X_, "        for col, cell_data in row_data.items():\n",
+                    "        cells = filter(lambda cell: not pd.isnull(cell[1]), row_data.items())\n        if not any(cells):\n            warnings.warn('Row {} of {} does not contain any data.'.format(row, io))\n        for col, cell_data in cells:\n")]},
+    {'name': 'row_data.items() kept and consumed twice', 'expect': ('REF.record', 'read_excel'),
+     'edits': [(X_, "        for col, cell_data in row_data.items():\n",
+                    "        cells = row_data.items()\n        if all(pd.isnull(cell_data) for _, cell_data in cells):\n            warnings.warn('Row {} of {} does not contain any data.'.format(row, io))\n        for col, cell_data in cells:\n")]},
+    {'name': 'wavenumbers de-duplicated with dict.fromkeys (degenerate modes dropped)', 'expect': ('REF.record', 'read_excel'),
+     'edits': [(X_, "        thermos_out.append(thermo_data)\n", "        if 'vib_wavenumbers' in thermo_data:\n            thermo_data['vib_wavenumbers'] = list(dict.fromkeys(thermo_data['vib_wavenumbers']))\n        thermos_out.append(thermo_data)\n")]},
+    {'name': 'list fields de-duplicated on append (same site twice dropped)', 'expect': ('REF.record', 'read_excel'),
+     'edits': [(X_, "        thermos_out.append(thermo_data)\n", "        if 'sites' in thermo_data:\n            thermo_data['sites'] = list(dict.fromkeys(thermo_data['sites']))\n        thermos_out.append(thermo_data)\n")]},
+    {'name': 'rows whose name cell is empty give no record', 'expect': ('REF.rows', 'read_excel'),
+     'edits': [(X_, "        thermo_data = {}\n        vib_set_by_outcar = False\n", "        if 'name' in row_data and pd.isnull(row_data['name']):\n            continue\n        thermo_data = {}\n        vib_set_by_outcar = False\n")]},
+    {'name': 'rows that hold nothing but a name give no record', 'expect': ('REF.rows', 'read_excel'),
+     'edits': [(X_, "        thermos_out.append(thermo_data)\n", "        if list(thermo_data) == ['name']:\n            continue\n        thermos_out.append(thermo_data)\n")]},
+    {'name': 'ordinary column phase upper-cased', 'expect': ('REF.record', 'read_excel'),
+     'edits': [(X_, "            else:\n                thermo_data[col] = cell_data\n", "            else:\n                if col == 'phase' and isinstance(cell_data, str):\n                    cell_data = cell_data.upper()\n                thermo_data[col] = cell_data\n")]},
+    {'name': 'ordinary column notes lower-cased', 'expect': ('REF.record', 'read_excel'),
+     'edits': [(X_, "            else:\n                thermo_data[col] = cell_data\n", "            else:\n                if col == 'notes':\n                    cell_data = cell_data.lower()\n                thermo_data[col] = cell_data\n")]},
+    {'name': 'headers lower-cased', 'expect': ('REF.record', 'read_excel'),
+     'edits': [(X_, "                col = col.strip()\n", "                col = col.strip().lower()\n")]},
 ]
 # behaviour-preserving rewrites (white-box review round 2, part B, reduced to their essential edits)
 EQUIV = [
@@ -777,4 +1089,15 @@ EQUIV = [
      'edits': [(X_, "    for row, row_data in input_data.iterrows():\n", "    for row_data in input_data.to_dict('records'):\n")]},
     {'name': 'electronic preset written as a dict(...) call',
      'edits': [('pmutt/statmech/__init__.py', "    'electronic': {\n        'model': StatMech,\n        'elec_model': elec.GroundStateElec,\n        'required': ('potentialenergy', 'spin'),\n    },", "    'electronic': dict(model=StatMech, elec_model=elec.GroundStateElec, required=('potentialenergy', 'spin')),")]},
+    # white-box review round 3, part B
+    {'name': 'headers trimmed once, taken from DataFrame.columns.tolist(), cells from Series.tolist()',
+     'edits': [(X_, "    thermos_out = []\n", "    thermos_out = []\n    headers = [col.strip() if isinstance(col, str) else col for col in input_data.columns.tolist()]\n"),
+               (X_, "        for col, cell_data in row_data.items():\n", "        for col, cell_data in zip(headers, row_data.tolist()):\n"),
+               (X_, "            if isinstance(col, str):\n                col = col.strip()\n", "")]},
+    {'name': 'nucl model setter made by a factory (a closure bound to the public name)',
+     'edits': [(X_, "def set_nucl_model(model, output_structure):", "def _model_setter(key, module, err_template):\n    def setter(model, output_structure):\n        try:\n            output_structure[key] = getattr(module, model)\n        except AttributeError:\n            if model.lower() == 'emptymode':\n                output_structure[key] = EmptyMode\n            else:\n                raise ValueError(err_template.format(model))\n        output_structure['model'] = StatMech\n    return setter\n\n\nset_nucl_model = _model_setter('nucl_model', nucl, 'Unsupported nuclear model, {}. See pmutt.statmech.nucl for supported models.')\n\n\ndef _set_nucl_model_old(model, output_structure):")]},
+    {'name': 'directory of the workbook from os.path.split',
+     'edits': [(X_, "    excel_path = os.path.dirname(io)\n", "    excel_path, _ = os.path.split(io)\n")]},
+    {'name': 'cells of a row collected in a list before the loop',
+     'edits': [(X_, "        for col, cell_data in row_data.items():\n", "        cells = list(row_data.items())\n        if not cells:\n            continue\n        for col, cell_data in cells:\n")]},
 ]
